@@ -61,6 +61,64 @@ func TestC10CleanAndSound(t *testing.T) {
 			t.Fatalf("second oracle call differs: %s", d)
 		}
 		last := got[len(got)-1]
+		switch c.Stream {
+		case "after-failed-render":
+			// construction: exactly the operations named in skip fail, all others succeed
+			info := c.Meta["c10"].(*c10info)
+			oi, failed, succeeded := 0, 0, 0
+			for i, op := range c.Hist {
+				switch op.Kind {
+				case "render", "rcode", "rplain", "save", "imports":
+				default:
+					continue
+				}
+				o := got[oi]
+				oi++
+				isFail := o.Kind == "panic" || o.Kind == "fmterr"
+				if isFail != (info.skip[i] != "") {
+					t.Fatalf("after-failed-render: op %d (%s) shows %s, designed failure: %q\n%s", i, op.Kind, o, info.skip[i], c.Hist.Sexp())
+				}
+				if isFail {
+					failed++
+					want := "fmterr"
+					if c10HasTag(c, "failed=rcode-panic") || c10HasTag(c, "failed=filerender-panic") {
+						want = "panic"
+					}
+					if o.Kind != want {
+						t.Fatalf("after-failed-render: tags %v promise %s, got %s", c.Tags, want, o)
+					}
+				} else if failed > 0 {
+					succeeded++ // a success AFTER a failure
+				}
+			}
+			if failed == 0 || succeeded == 0 || (last.Kind != "write" && last.Kind != "save") || last.Failed {
+				t.Fatalf("after-failed-render: %d failures, %d successes, last %s", failed, succeeded, last)
+			}
+			outcomes["after-failed:"+c.Tags[1]]++
+			continue
+		case "save-over-related":
+			info := c.Meta["c10"].(*c10info)
+			if last.Kind != "save" || last.Failed {
+				t.Fatalf("save-over-related: want a successful save, got %s", last)
+			}
+			old, out := info.pre["existing.go"].Data, last.Out
+			rel := ""
+			switch {
+			case old == out:
+				rel = "existing-equal"
+			case strings.HasPrefix(old, out):
+				rel = "existing-extends-output"
+			case strings.HasPrefix(out, old):
+				rel = "existing-prefix-of-output"
+			case len(old) == len(out):
+				rel = "existing-same-length"
+			}
+			if !c.NonTrivial || rel == "" || !c10HasTag(c, "target="+rel) {
+				t.Fatalf("save-over-related: measured relation %q, tags %v, nontrivial %v\nold %q\nout %q", rel, c.Tags, c.NonTrivial, old, out)
+			}
+			outcomes["save-over:"+rel]++
+			continue
+		}
 		var want string
 		switch {
 		case (c10HasTag(c, "tree=random") || c10HasTag(c, "tree=damaged")) && !c10HasTag(c, "cause=panic"):
@@ -96,6 +154,12 @@ func TestC10CleanAndSound(t *testing.T) {
 	for _, k := range []string{"ok", "panic", "fmterr", "write-failed", "save-failed"} {
 		if outcomes[k] < 50 {
 			t.Errorf("outcome %s seen only %d times: %v", k, outcomes[k], outcomes)
+		}
+	}
+	for _, k := range []string{"after-failed:failed=rcode-fmterr", "after-failed:failed=rcode-panic", "after-failed:failed=filerender-fmterr", "after-failed:failed=filerender-panic",
+		"save-over:existing-equal", "save-over:existing-extends-output", "save-over:existing-prefix-of-output", "save-over:existing-same-length"} {
+		if outcomes[k] < 20 {
+			t.Errorf("%s seen only %d times: %v", k, outcomes[k], outcomes)
 		}
 	}
 	if _, err := os.Stat(root); !os.IsNotExist(err) {
@@ -354,5 +418,222 @@ func TestC10GroupTarget(t *testing.T) {
 		if o.Kind != "write" || !strings.HasPrefix(o.Out, "{") || !strings.HasSuffix(o.Out, "}") {
 			t.Fatalf("group render: %v", o)
 		}
+	}
+}
+
+// Stream after-failed-render: the reference of a later call is the run in which the failed
+// call never happened; leftovers of the failure in a later call's output, a later call that
+// fails, and a failing call that wrote something are rejected.
+func TestC10AfterFailedRender(t *testing.T) {
+	p := &c10{}
+	defer p.Close()
+	r := rand.New(rand.NewSource(11))
+	seen := map[string]int{}
+	for n := 0; n < 120; n++ {
+		seed := r.Int63()
+		c := p.afterFailed(rand.New(rand.NewSource(seed)))
+		got := c10Run(c)
+		info := c.Meta["c10"].(*c10info)
+		c10Accept(t, p, "unchanged implementation", c, got)
+		// positions: observation index of the first designed failure and of the first later success
+		oi, failAt, okAt := 0, -1, -1
+		var failOp, okOp int
+		for i, op := range c.Hist {
+			switch op.Kind {
+			case "render", "rcode", "rplain", "save", "imports":
+			default:
+				continue
+			}
+			if info.skip[i] != "" && failAt < 0 {
+				failAt, failOp = oi, i
+			}
+			if info.skip[i] == "" && failAt >= 0 && okAt < 0 {
+				okAt, okOp = oi, i
+			}
+			oi++
+		}
+		if failAt < 0 || okAt < 0 || c.Hist[okOp].Kind != "rcode" {
+			t.Fatalf("no failure followed by a fragment render: %s", c.Hist.Sexp())
+		}
+		// the reference run really leaves the failed call out
+		tw, ok := c10Twin(c.Hist, okOp, false, info.skip)
+		var alone hist.History
+		for i, op := range c.Hist[:okOp+1] {
+			if info.skip[i] == "drop" || op.Kind == "imports" {
+				continue
+			}
+			if info.skip[i] == "raw" {
+				alone = append(alone, hist.Op{Kind: "noformat", F: 0, Flag: true}, op, hist.Op{Kind: "noformat", F: 0, Flag: false})
+				continue
+			}
+			alone = append(alone, op)
+		}
+		ref := hist.NewWorld().Exec(alone)
+		if !ok || tw.Kind != "write" || tw.Out != ref[len(ref)-1].Out || tw.Out != got[okAt].Out {
+			t.Fatalf("reference run: %v %s, hand-made %s, implementation %s", ok, tw, ref[len(ref)-1], got[okAt])
+		}
+		for i := range alone {
+			if alone[i].Kind != "render" && info.skip[failOp] == "drop" && alone[i].Code != nil && alone[i].Code == c.Hist[failOp].Code {
+				t.Fatal("the dropped call is still in the reference history")
+			}
+		}
+		mut := func(f func(o []hist.Obs)) []hist.Obs {
+			o := append([]hist.Obs{}, got...)
+			f(o)
+			return o
+		}
+		// (1) the text of the failed call precedes the later call's own output
+		left := "x :=\n"
+		if got[failAt].Kind == "fmterr" {
+			left = got[failAt].Out
+		}
+		c10Reject(t, p, "leftover bytes", c, mut(func(o []hist.Obs) { o[okAt].Out = left + o[okAt].Out }), "not the rendered output")
+		// (2) the later call fails in go/format because of what was left in a buffer
+		c10Reject(t, p, "later call fails", c, mut(func(o []hist.Obs) {
+			o[okAt] = hist.Obs{Kind: "fmterr", Out: "x :=" + o[okAt].Out, Msg: "Error 1:1: expected operand"}
+		}), "leftovers of the failed call")
+		// (3) the later call panics
+		c10Reject(t, p, "later call panics", c, mut(func(o []hist.Obs) {
+			o[okAt] = hist.Obs{Kind: "panic", Msg: "unsupported type for literal: struct {}"}
+		}), "leftovers of the failed call")
+		// (4) the failing call wrote before it failed
+		c10Reject(t, p, "failing call wrote", c, mut(func(o []hist.Obs) { o[failAt].Writes, o[failAt].Out = 1, o[failAt].Out+"" }), "Write call")
+		// (5) the last operation (File.Render / Save) carries the leftovers
+		last := len(got) - 1
+		if last != okAt && (got[last].Kind == "write" || got[last].Kind == "save") {
+			if got[last].Kind == "save" {
+				// as if Save had written leftover + output (the same case built again, its own
+				// directory): the file and the observation agree
+				c2 := p.afterFailed(rand.New(rand.NewSource(seed)))
+				got2 := c10Run(c2)
+				sym := c2.Hist[len(c2.Hist)-1].A
+				path := c2.Meta["savepath"].(func(string) string)(sym)
+				if err := os.WriteFile(path, []byte(left+got2[last].Out), 0644); err != nil {
+					t.Fatal(err)
+				}
+				got2[last].Out = left + got2[last].Out
+				c10Reject(t, p, "leftover bytes in the saved file", c2, got2, "not the rendered output")
+			} else {
+				c10Reject(t, p, "leftover bytes in File.Render", c, mut(func(o []hist.Obs) { o[last].Out = left + o[last].Out }), "not the rendered output")
+			}
+		}
+		seen[c.Tags[1]]++
+	}
+	for _, k := range []string{"failed=rcode-fmterr", "failed=rcode-panic", "failed=filerender-fmterr", "failed=filerender-panic"} {
+		if seen[k] < 10 {
+			t.Errorf("%s: %d cases", k, seen[k])
+		}
+	}
+}
+
+// Stream save-over-related: Saves that do not truncate, append, skip the write when the
+// length / the beginning matches, or keep the old file are rejected; the correct run accepted.
+func TestC10SaveOverRelated(t *testing.T) {
+	p := &c10{}
+	defer p.Close()
+	r := rand.New(rand.NewSource(12))
+	for n := 0; n < 10; n++ {
+		for _, rel := range c10Relations {
+			for _, nf := range []bool{false, true} {
+				build := func(seed int64) (*Case, []hist.Obs, string, string) {
+					c := p.saveOver(rand.New(rand.NewSource(seed)), rel, nf)
+					info := c.Meta["c10"].(*c10info)
+					old := info.pre["existing.go"].Data
+					got := c10Run(c)
+					path := c.Meta["savepath"].(func(string) string)("existing.go")
+					return c, got, old, path
+				}
+				seed := r.Int63()
+				c, got, old, path := build(seed)
+				if !c10HasTag(c, "target="+rel) || !c.NonTrivial {
+					t.Fatalf("%s: tags %v", rel, c.Tags)
+				}
+				out := got[len(got)-1].Out
+				switch rel {
+				case "existing-equal":
+					if old != out {
+						t.Fatalf("equal: %q %q", old, out)
+					}
+				case "existing-extends-output":
+					if !strings.HasPrefix(old, out) || len(old) <= len(out) {
+						t.Fatalf("extends: %q %q", old, out)
+					}
+				case "existing-prefix-of-output":
+					if !strings.HasPrefix(out, old) || len(old) >= len(out) || old == "" {
+						t.Fatalf("prefix: %q %q", old, out)
+					}
+				case "existing-same-length":
+					if len(old) != len(out) || old == out {
+						t.Fatalf("same length: %q %q", old, out)
+					}
+				}
+				c10Accept(t, p, rel+"/correct save", c, got)
+
+				// a defective Save, simulated on the file system: the executor reads back what is there
+				defect := func(name string, content func(old, out string) string, wantSub string) {
+					c, got, old, path := build(seed)
+					o := append([]hist.Obs{}, got...)
+					bad := content(old, o[len(o)-1].Out)
+					if bad == o[len(o)-1].Out {
+						c10Accept(t, p, rel+"/"+name+" (invisible here)", c, got)
+						return
+					}
+					if err := os.WriteFile(path, []byte(bad), 0644); err != nil {
+						t.Fatal(err)
+					}
+					o[len(o)-1].Out = bad
+					c10Reject(t, p, rel+"/"+name, c, o, wantSub)
+				}
+				_ = path
+				// open without O_TRUNC: the tail of a longer old file survives
+				noTrunc := func(old, out string) string {
+					if len(old) > len(out) {
+						return out + old[len(out):]
+					}
+					return out
+				}
+				defect("no truncation", noTrunc, "not the rendered output")
+				defect("append", func(old, out string) string { return old + out }, "not the rendered output")
+				defect("skip when the length matches", func(old, out string) string {
+					if len(old) == len(out) {
+						return old
+					}
+					return out
+				}, "not the rendered output")
+				defect("skip when the old file begins like the output", func(old, out string) string {
+					if strings.HasPrefix(old, out) {
+						return old
+					}
+					return out
+				}, "not the rendered output")
+				defect("write only the part beyond the old length", func(old, out string) string {
+					if len(out) > len(old) {
+						return old + out[len(old):]
+					}
+					return old
+				}, "not the rendered output")
+			}
+		}
+	}
+	// each defect is visible in the relation made for it
+	vis := map[string]bool{}
+	for _, rel := range c10Relations {
+		c := p.saveOver(rand.New(rand.NewSource(99)), rel, false)
+		old := c.Meta["c10"].(*c10info).pre["existing.go"].Data
+		got := c10Run(c)
+		out := got[len(got)-1].Out
+		if len(old) > len(out) {
+			vis["no truncation:"+rel] = true
+		}
+		if len(old) == len(out) && old != out {
+			vis["same length:"+rel] = true
+		}
+		if len(old) < len(out) && strings.HasPrefix(out, old) {
+			vis["tail only:"+rel] = true
+		}
+		c10Accept(t, p, rel, c, got)
+	}
+	if !vis["no truncation:existing-extends-output"] || !vis["same length:existing-same-length"] || !vis["tail only:existing-prefix-of-output"] {
+		t.Fatalf("visibility: %v", vis)
 	}
 }
